@@ -8,7 +8,10 @@ LEVEL = 'model_checking'
 
 def keyfn(u):
     t = u['term']
-    return 'set %s arity=%d' % (t['op'], len(t['ops'])) if t['k'] == 'set' else t['k']
+    if t['k'] != 'set':
+        return t['k']
+    inner = [o['op'] for o in t['ops'] if o.get('k') == 'set']
+    return 'set %s arity=%d%s' % (t['op'], len(t['ops']), (' nested ' + '+'.join(inner)) if inner else '')
 
 
 def random_units(rnd, n):
@@ -27,8 +30,14 @@ def random_units(rnd, n):
             nrows = rnd.choice([0, 1, 2, 4, 6, 12, 40])
             env[nm] = gen.shuffled(rnd, gen.dataset(rnd, ids, others, nrows, keyspace=rnd.choice([3, 5, 9])))
             names.append(nm)
-        units.append({'id': 'r%d' % i, 'env': env, 'cc': True,
-                      'term': {'k': 'set', 'op': op, 'ops': [gen.var(x) for x in names]}})
+        term = {'k': 'set', 'op': op, 'ops': [gen.var(x) for x in names]}
+        if rnd.random() < 0.35:
+            # nest a set operator inside (same or different operator, left or right)
+            nm = 'DS_%d' % (arity + 1)
+            env[nm] = gen.shuffled(rnd, gen.dataset(rnd, ids, others, rnd.choice([0, 2, 5, 9]), keyspace=rnd.choice([3, 5, 9])))
+            outer = rnd.choice([op, op, 'union', 'intersect', 'setdiff', 'symdiff'])
+            term = {'k': 'set', 'op': outer, 'ops': [term, gen.var(nm)] if rnd.random() < 0.6 else [gen.var(nm), term]}
+        units.append({'id': 'r%d' % i, 'env': env, 'cc': True, 'term': term})
     return units
 
 
